@@ -196,6 +196,11 @@ func (c *Client) SyncSDK() CallOutcome {
 	return Guard(20*time.Second, func(ctx context.Context) error { return c.Cli.Sync() })
 }
 
+// SyncSDKWithin is SyncSDK with a caller-chosen watchdog.
+func (c *Client) SyncSDKWithin(d time.Duration) CallOutcome {
+	return Guard(d, func(ctx context.Context) error { return c.Cli.Sync() })
+}
+
 // CloseSDK closes the SDK client's connections.
 func (c *Client) CloseSDK() {
 	if c.SDK {
